@@ -241,7 +241,12 @@ def whole_cart(seed, fmt):
                'music': reffmt.music_mask(mem_r[0x3100:0x3200]), 'sfx': mem_r[0x3200:0x4300],
                'label': label, 'code': code, 'version': version}
         text = reffmt.write_p8(version, code, mem_r, label, elide=elide)
-        case = dict(case, elided=elide)
+        unterminated = seed[-5] % 4 == 0
+        if unterminated:
+            # the last row of the last section without a line terminator (editors strip trailing blank lines and the
+            # final newline), or with the file's closing blank line removed only
+            text = text.rstrip(b'\n') if seed[-6] % 2 == 0 else text[:-1]
+        case = dict(case, elided=elide, last_line_unterminated=unterminated)
         try:
             g2 = P8Formatter.from_file(io.BytesIO(text))
         except Exception as e:
@@ -381,6 +386,8 @@ def part_carts(ctx):
     def body(v):
         seed, fmt = v
         modes = whole_cart(seed, fmt) if fmt in ('p8', 'png') else whole_cart_both(seed, fmt)
+        if fmt == 'p8' and seed[-5] % 4 == 0:
+            ctx.stats.count('p8_last_line_unterminated')
         if fmt == 'png':
             ctx.stats.count('png_flavour_' + ('plain' if reffmt.png_flavour(seed[-8:-4])[1] == 'plain' else 'other'))
         ctx.stats.case(seed + fmt.encode(), sum(1 for m in modes if m in ('random', 'ramp')) >= 1,
